@@ -290,6 +290,9 @@ pub assume_specification [ u128::pow ] (base: u128, exp: u32) -> (r: u128)
 
 // ---------------------------------------------------------------- constructors / conversions
 impl Uint64 {
+    /// `full_mul`: the exact 128-bit product
+    #[verifier::external_body]
+    pub fn full_mul(self, o: Uint64) -> (r: Uint128) ensures r@ == self@ * o@ { unimplemented!() }
     pub fn new(v: u64) -> (r: Uint64) ensures r.v == v { Uint64 { v } }
     pub fn u64(&self) -> (r: u64) ensures r == self.v { self.v }
 }
